@@ -275,6 +275,11 @@ func visitInstr(fr *frame, instr ssa.Instruction) continuation {
 	case *ssa.Select:
 		panic(unsupported{"select statement"})
 	case *ssa.MakeChan:
+		if sz := in.toInt(fr.get(instr.Size), "chan size"); sz != 0 {
+			// the schedule reduction used for the channel protocol (one producer, at most one
+			// pending send) does not hold for buffered channels
+			panic(unsupported{"buffered channel: the single-pending-send reduction does not apply"})
+		}
 		in.path.nchan++
 		fr.env.set(instr, &Chan{id: in.path.nchan, cap: in.toInt(fr.get(instr.Size), "chan size")})
 	case *ssa.Alloc:
